@@ -10,6 +10,7 @@ import (
 	"sort"
 	"strings"
 	"sync"
+	"sync/atomic"
 	"time"
 
 	gproto "google.golang.org/protobuf/proto"
@@ -42,6 +43,7 @@ type Program struct {
 	LatencyUs    []int // KeyEventBatch latency per call (cyclic); exercises out-of-order completions
 	FinalN       int   // worker count of the read-back deployment (0 = same)
 	SlowArtifact bool  // savepoint runs: a periodic checkpoint completes while the artifact is assembled
+	LatePub      bool  // savepoint runs: the goroutine that publishes the savepoint's checkpoint gets going late, after the next periodic checkpoint completed
 	Chain        int   // savepoint runs: the restored job is saved, wiped and restored once more: 1 = as soon as it has been deployed (while it processes the rest of the input), 2 = after it processed the rest
 }
 
@@ -654,6 +656,7 @@ func GenProgram(rt *rapid.T, faults []string, maxFaults int) Program {
 type SPStats struct {
 	Folded, DifferentWorkers, FlushSwaps, FilesWiped, RemainingRecords int
 	Chained                                                            int // savepoints taken of a job that was itself restored from a savepoint
+	LatePubs                                                           int // publications held back at their start until a newer checkpoint could have been published
 }
 
 // RunSavepoint: run the job, request a savepoint at a drawn moment (possibly
@@ -786,13 +789,42 @@ func RunSavepoint(p Program, c *hx.Case) (st SPStats, err error) {
 					}
 					w.Loc.mu.Unlock()
 				}
+				if p.LatePub {
+					// The first publication that begins from now on (the savepoint's, unless
+					// an earlier checkpoint was still in flight) is slow to get going:
+					// meanwhile another periodic checkpoint starts and completes.
+					var first atomic.Bool
+					w.mu.Lock()
+					w.PubHook = func(id uint64) {
+						if !first.CompareAndSwap(false, true) {
+							return // (later publications are not held: they may overtake)
+						}
+						func() {
+							w.Tick()
+							if WaitFor(300*time.Millisecond, func() bool {
+								s := w.Snapshots()
+								return len(s) > 0 && s[len(s)-1] > id
+							}) {
+								// (a newer checkpoint overtook this one: its retention update reaches the operators)
+								time.Sleep(3 * time.Millisecond)
+							}
+							w.mu.Lock()
+							st.LatePubs++
+							w.mu.Unlock()
+						}()
+					}
+					w.mu.Unlock()
+				}
 				id, serr := w.Job.HandleCreateSavepoint(context.Background())
 				w.HoldAcks(false)
 				heldID = 0
 				if serr != nil {
 					// not running yet: try again at the next call
+					w.mu.Lock() // (the gate reads pending and advances idx under this lock)
 					pending = append(pending, Fault{At: f.At + 3, Kind: "savepoint"})
-					sort.SliceStable(pending[idx:], func(i, j int) bool { return pending[idx+i].At < pending[idx+j].At })
+					rest := pending[idx:]
+					sort.SliceStable(rest, func(i, j int) bool { return rest[i].At < rest[j].At })
+					w.mu.Unlock()
 					break
 				}
 				spID, spRequested = id, true
@@ -821,9 +853,14 @@ func RunSavepoint(p Program, c *hx.Case) (st SPStats, err error) {
 			logTail(w)
 			return st, err
 		}
-		if !spRequested && idx >= len(pending) {
+		w.mu.Lock()
+		ranOut := !spRequested && idx >= len(pending)
+		if ranOut {
 			// the plan ran out before the job was running: request it now
 			pending = append(pending, Fault{At: int(w.gateN.Load()) + 1, Kind: "savepoint"})
+		}
+		w.mu.Unlock()
+		if ranOut {
 			w.gate("nudge", "harness", "harness")
 		}
 		if spRequested {
@@ -834,7 +871,9 @@ func RunSavepoint(p Program, c *hx.Case) (st SPStats, err error) {
 					logTail(w)
 					return st, err
 				}
+				w.mu.Lock()
 				st.FlushSwaps = flushSwaps
+				w.mu.Unlock()
 				// stop everything
 				for _, n := range w.Live() {
 					w.Kill(n)
